@@ -50,6 +50,10 @@ def gen_numeric_table(rng, big=True):
     nkeys = rng.choice([1, 1, 2])
     nvals = rng.choice([1, 2, 3])
     kvals = [rng.sample(KEYS, rng.randrange(1, 6)) for _ in range(nkeys)]
+    if nkeys == 2 and rng.random() < 0.15:
+        # two-part keys that read the same once glued together with the separator between them ("a,b" + "c" / "a" + "b,c", and the like with | : and a blank)
+        sep = rng.choice([',', ',', '|', ':', ' ', '","'])
+        kvals = [['a' + sep + 'b', 'a', 'x', 'a' + sep], ['c', 'b' + sep + 'c', 'x', sep + 'c']]
     # numeric strings (what CSV sources deliver) and, in a quarter of the columns, native numbers (what list / pandas / sqlite sources deliver)
     kinds = [rng.choice(['int', 'int', 'float', 'mixed', 'zeros', 'int', 'float', 'mixed', 'zeros', 'nint', 'nfloat', 'nmixed', 'fancy']) for _ in range(nvals)]
     if big and rng.random() < 0.06:
